@@ -59,6 +59,7 @@ type H struct {
 	assume   []string
 	extra    map[string]any
 	replay   string // VERIF_REPLAY path: run only that case
+	excluded int
 	lines    []string
 }
 
@@ -267,6 +268,14 @@ func (h *H) knownFor(path string) *Finding {
 // case (plain JSON-serialisable data); prop evaluates the property on it and is
 // also what the replay tier calls, without rapid.
 func Sub[C any](h *H, name string, n int, gen func(*rapid.T) C, prop func(C) Verdict) {
+	SubEx(h, name, n, gen, prop, nil)
+}
+
+// SubEx is Sub with an exclusion predicate that is applied to generated cases
+// only (cases in the trigger class of a listed open finding are not searched,
+// and counted); saved cases - in particular the probes of those findings - are
+// always evaluated by prop itself.
+func SubEx[C any](h *H, name string, n int, gen func(*rapid.T) C, prop func(C) Verdict, exclude func(C) string) {
 	s := h.sub(name)
 	safe := func(c C) (v Verdict) {
 		defer func() {
@@ -330,6 +339,13 @@ func Sub[C any](h *H, name string, n int, gen func(*rapid.T) C, prop func(C) Ver
 		flag.Set("rapid.seed", strconv.FormatUint(h.subSeed(name), 10))
 		rapid.Check(t, func(rt *rapid.T) {
 			c := model.RoundTrip(gen(rt)) // execute exactly what a replay file would hold
+			if exclude != nil {
+				if why := exclude(c); why != "" {
+					h.excluded++
+					h.note(s, c, Verdict{Skip: "excluded-by-known-finding:" + why})
+					return
+				}
+			}
 			v := safe(c)
 			if !failed { // after the first failure rapid is shrinking: do not count those evaluations
 				h.note(s, c, v)
@@ -420,6 +436,7 @@ func (h *H) Finish() {
 	if exh {
 		cov["exhaustive"] = true
 	}
+	cov["excluded_by_known_finding"] = h.excluded
 	for k, v := range h.extra {
 		cov[k] = v
 	}
